@@ -156,21 +156,20 @@ def _it_sum(ex, c, a, d):
     return IntV(t, "usize")
 
 
-def m2_update_full(S):
+def _assembler_run(S, fname, nupvars=("self", "tx_pool")):
     from mir2smt.exec import CoroV, post_value
     from mir2smt.srcinfo import field_index
-    ob = "C13.m2"
-    c = [f for f in S.prog.funcs if f.kind == "fn" and re.search(r"block_assembler::<impl at [^>]*>::update_full::\{closure#0\}$", f.name) and len(f.params) == 2 and "Context" in f.params[1][1]]
+    c = [f for f in S.prog.funcs if f.kind == "fn" and re.search(r"block_assembler::<impl at [^>]*>::" + fname + r"::\{closure#0\}$", f.name) and len(f.params) == 2 and "Context" in f.params[1][1]]
     if len(c) != 1:
-        raise Inconclusive(f"update_full coroutine: {len(c)} candidates")
+        raise Inconclusive(f"{fname} coroutine: {len(c)} candidates")
     f = c[0]
     ix = {}
     for name, place in f.debug.items():
         m = re.match(r"\(\(\*\(_1\.0: .*?\)\)\.(\d+): ", place)
         if m:
             ix[name] = int(m.group(1))
-    if "self" not in ix or "tx_pool" not in ix:
-        raise Inconclusive(f"update_full upvars: {ix}")
+    if any(n not in ix for n in nupvars):
+        raise Inconclusive(f"{fname} upvars: {ix}")
     M = "tx-pool/src/block_assembler/mod.rs"
     ct, bt, ts, te = field_index(M, "CurrentTemplate"), field_index(M, "BlockTemplate"), field_index(M, "TemplateSize"), field_index("tx-pool/src/component/entry.rs", "TxEntry")
     ctx = S.ctx(unwind=10)
@@ -227,7 +226,9 @@ def m2_update_full(S):
         (E.rx(r" as Iterator>::sum::<usize>$"), _it_sum),
         (E.rx(r"BlockTemplateBuilder::from_template$"), lambda ex, c_, a, d: OpaqueV("builder_from(" + nmv(ex, a[0])[:40] + ")", d)),
         (E.rx(r"BlockTemplateBuilder::(set_proposals|set_transactions)$"), rec("builder_set", lambda ex, d: ex.ctx.ref_to(OpaqueV("builder", "BlockTemplateBuilder")), 1)),
-        (E.rx(r"BlockTemplateBuilder::(work_id|current_time|dao)$"), lambda ex, c_, a, d: a[0]),
+        (E.rx(r"BlockTemplateBuilder::(work_id|current_time|dao|extension)$"), lambda ex, c_, a, d: a[0]),
+        (E.rx(r"BlockAssembler::build_extension$"), lambda ex, c_, a, d: mk_result(ex.ctx.bool("extension_ok").t, mk_option(ex.ctx.bool("has_extension").t, OpaqueV("new_extension", "Bytes"), "Option<Bytes>"), OpaqueV("ext_err", "AnyError"), d)),
+        (E.rx(r"core::slice::<impl \[.*ProposalShortId\]>::iter$|<Vec<.*ProposalShortId> as Deref>::deref$"), lambda ex, c_, a, d: OpaqueV("iter(" + nmv(ex, a[0]) + ")", d)),
         (E.rx(r"BlockTemplateBuilder::build$"), lambda ex, c_, a, d: OpaqueV("built_template", d)),
         (E.rx(r"as FromIterator<.*>>::from_iter::<"), lambda ex, c_, a, d: OpaqueV("vec_of(" + nmv(ex, a[0]) + ")", d)),
         (E.rx(r"AtomicU64::fetch_add$"), lambda ex, c_, a, d: ex.ctx.int("work_id", "u64")),
@@ -236,9 +237,20 @@ def m2_update_full(S):
         (E.rx(r"<Vec<.*> as Deref>::deref$"), lambda ex, c_, a, d: a[0]),
         (E.rx(r"Vec::<.*>::len$"), lambda ex, c_, a, d: (IntV(len(deref(ex, a[0]).items), "usize") if isinstance(deref(ex, a[0]), ListV) else ex.ctx.int("len_" + re.sub(r"[^A-Za-z0-9]", "_", nmv(ex, a[0])), "usize"))),
     ] + list(E.LIST_ADAPTORS)
-    ups = {ix["self"]: ctx.ref_to(OpaqueV("assembler", "BlockAssembler")), ix["tx_pool"]: ctx.ref_to(OpaqueV("pool_lock", "RwLock<TxPool>"))}
+    ups = {ix["self"]: ctx.ref_to(OpaqueV("assembler", "BlockAssembler"))}
+    if "tx_pool" in ix:
+        ups[ix["tx_pool"]] = ctx.ref_to(OpaqueV("pool_lock", "RwLock<TxPool>"))
     coro = CoroV(0, tuple(sorted(ups.items())), (), "coroutine")
     ps = S.run(ctx, f, [AggV((ctx.ref_to(coro),), "Pin"), ctx.ref_to(OpaqueV("task_context", "Context"))])
+    return dict(locals())
+
+
+def m2_update_full(S):
+    from mir2smt.exec import post_value
+    ob = "C13.m2"
+    L = _assembler_run(S, "update_full")
+    ctx, ps, calls, maxb, maxc, maxp, basic, nprop, tip_changed, sizes, template, old_size, cur_cell, entries, ct, bt, ts = (L[k] for k in
+        ("ctx", "ps", "calls", "maxb", "maxc", "maxp", "basic", "nprop", "tip_changed", "sizes", "template", "old_size", "cur_cell", "entries", "ct", "bt", "ts"))
     # sizes of real blocks are far below the word size
     pre = [T.le(maxb.t, 1 << 40), T.le(basic.t, 1 << 40), T.le(nprop.t, 1 << 32)] + [T.le(x.t, 1 << 40) for x in sizes]
     rs = returns(ps)
@@ -296,7 +308,75 @@ def _is_diff(s, a, b):
     return a in s and b in s and ("sub" in s or "-" in s or "+" in s)
 
 
-OBLIGATIONS = [m1_template_size, m2_update_full, m3_prepare_uncles]
+def m4_incremental_updates(S):
+    """`update_proposals` / `update_transactions` (async fns): what they hand to the packagers and when the recomputed template is adopted.
+    update_proposals: adopted iff old total - old proposals + new proposals stays strictly below max_block_bytes, and then the recorded proposals part and total are exactly those;
+    update_transactions: the basic size counts the template's own proposals, the package gets max_block_bytes - basic size bytes and max_block_cycles cycles, and the recorded
+    transactions part / total are those of the dao-checked package; a pool on another tip changes nothing"""
+    from mir2smt.exec import post_value
+    ob = "C13.m4"
+    # ---------------- update_proposals
+    L = _assembler_run(S, "update_proposals")
+    ctx, ps, calls, maxb, maxp, nprop, tip_changed, template, old_size, cur_cell, ct, ts = (L[k] for k in ("ctx", "ps", "calls", "maxb", "maxp", "nprop", "tip_changed", "template", "old_size", "cur_cell", "ct", "ts"))
+    old = {k: as_int(old_size.fields[i]) for k, i in ts.items()}
+    pre = [T.le(maxb.t, 1 << 40), T.le(nprop.t, 1 << 32)] + [T.le(v, 1 << 40) for v in old.values()] + [T.le(old["proposals"], old["total"])]
+    rs = returns(ps)
+    ready = [p for p in rs if isinstance(p.value, EnumV) and p.value.disc == 0]
+    S.prove(ctx, ob, "update_proposals_completes_without_panicking_or_suspending", pre, bool(ready and len(ready) == len(rs)) and T.not_(cond_of(panics(ps))))
+    pp = {n for t, n, _ in calls if t == "package_proposals"}
+    S.prove(ctx, ob, "update_proposals_packages_up_to_the_consensus_limit_excluding_the_templates_uncles", [], bool(pp == {("pool", "max_block_proposals_limit", "old_uncles")}), extra={"note": str(pp)})
+    new_part = T.mul(nprop.t, 10)
+    new_total = T.add(T.sub(old["total"], old["proposals"]), new_part)
+    goals, adopted = [], []
+    for p in ready:
+        post = post_value(ctx, p, cur_cell)
+        took = any(e[0] == "c13" and e[1] == "builder_set" for e in p.log)
+        if not isinstance(post, AggV):
+            goals.append(False)
+            continue
+        sz, tm = post.fields[ct["size"]], post.fields[ct["template"]]
+        if took:
+            adopted.append(p.cond())
+            goals.append(T.implies(p.cond(), T.and_(T.eq(as_int(sz.fields[ts["proposals"]]), new_part), T.eq(as_int(sz.fields[ts["total"]]), new_total),
+                                                    T.eq(as_int(sz.fields[ts["txs"]]), old["txs"]), T.eq(as_int(sz.fields[ts["uncles"]]), old["uncles"]), bool(nmv(None, tm) == "built_template"))))
+        else:
+            goals.append(bool(nmv(None, tm) == nmv(None, template) and nmv(None, sz) == nmv(None, old_size)))
+    S.prove(ctx, ob, "update_proposals_records_exactly_the_new_proposals_part_and_total_or_leaves_the_template_alone", pre, T.and_(*goals) if goals else False)
+    S.prove(ctx, ob, "update_proposals_adopts_iff_same_tip_and_the_new_total_stays_below_max_block_bytes", pre, T.iff(T.or_(*adopted) if adopted else False, T.and_(T.not_(tip_changed.t), T.lt(new_total, maxb.t))))
+    S.witness(ctx, ob, "update_proposals_reach_rejected_for_size", pre + [T.not_(tip_changed.t)], T.ge(new_total, maxb.t))
+    # ---------------- update_transactions
+    L = _assembler_run(S, "update_transactions")
+    ctx, ps, calls, maxb, maxc, basic, tip_changed, sizes, template, old_size, cur_cell, entries, ct, ts = (L[k] for k in ("ctx", "ps", "calls", "maxb", "maxc", "basic", "tip_changed", "sizes", "template", "old_size", "cur_cell", "entries", "ct", "ts"))
+    old = {k: as_int(old_size.fields[i]) for k, i in ts.items()}
+    pre = [T.le(maxb.t, 1 << 40), T.le(basic.t, 1 << 40)] + [T.le(v, 1 << 40) for v in old.values()] + [T.le(x.t, 1 << 40) for x in sizes] + [T.le(old["txs"], old["total"])]
+    rs = returns(ps)
+    ready = [p for p in rs if isinstance(p.value, EnumV) and p.value.disc == 0]
+    S.prove(ctx, ob, "update_transactions_completes_without_panicking_or_suspending", pre, bool(ready and len(ready) == len(rs)) and T.not_(cond_of(panics(ps))))
+    bb = {n for t, n, _ in calls if t == "basic_block_size"}
+    S.prove(ctx, ob, "update_transactions_basic_size_counts_the_templates_cellbase_uncles_proposals_and_the_new_extension", [], bool(bb and all(n[0] == "data(old_cellbase)" and n[1] == "old_uncles" and "old_proposals" in n[2] for n in bb)), extra={"note": str(bb)})
+    pk = [(n, pc) for t, n, pc in calls if t == "package_txs"]
+    S.prove(ctx, ob, "update_transactions_package_limits_are_block_cycles_and_bytes_left_after_the_basic_size", [], bool(pk and all(n == ("max_block_cycles", str(T.sub(maxb.t, basic.t))) for n, _ in pk)), extra={"note": str([n for n, _ in pk])[:300]})
+    whenpk = T.or_(*[T.and_(*pc) for _, pc in pk]) if pk else False
+    S.prove(ctx, ob, "update_transactions_packages_iff_same_tip_and_the_basic_size_fits", pre + [ctx.bool("extension_ok").t], T.iff(whenpk, T.and_(T.not_(tip_changed.t), T.le(basic.t, maxb.t))))
+    tot = T.add(sizes[0].t, sizes[1].t)
+    goals = []
+    for p in ready:
+        post = post_value(ctx, p, cur_cell)
+        took = any(e[0] == "c13" and e[1] == "builder_set" for e in p.log)
+        if not isinstance(post, AggV):
+            goals.append(False)
+            continue
+        sz, tm = post.fields[ct["size"]], post.fields[ct["template"]]
+        if took:
+            goals.append(T.implies(p.cond(), T.and_(T.eq(as_int(sz.fields[ts["txs"]]), tot), T.eq(as_int(sz.fields[ts["total"]]), T.add(T.sub(old["total"], old["txs"]), tot)),
+                                                    T.eq(as_int(sz.fields[ts["proposals"]]), old["proposals"]), T.eq(as_int(sz.fields[ts["uncles"]]), old["uncles"]), bool(nmv(None, tm) == "built_template"))))
+        else:
+            goals.append(bool(nmv(None, tm) == nmv(None, template) and nmv(None, sz) == nmv(None, old_size)))
+    S.prove(ctx, ob, "update_transactions_records_exactly_the_new_transactions_part_and_total_or_leaves_the_template_alone", pre, T.and_(*goals) if goals else False)
+    S.witness(ctx, ob, "update_transactions_reach_adopted", pre, whenpk)
+
+
+OBLIGATIONS = [m1_template_size, m2_update_full, m3_prepare_uncles, m4_incremental_updates]
 
 ENGINE = "M"
 LEVEL = "other"
